@@ -1,5 +1,6 @@
 import Driver.Common
 import RxModel.Conn
+import RxModel.ConnSync
 open Lean Drv
 
 namespace DrvConn
@@ -107,10 +108,58 @@ def mcastRun (j : Json) : Except String Json := do
   let logs := res.foldl (fun acc (_, _, l) => acc ++ l) []
   pure (Json.mkObj [("out", Json.mkObj outs), ("src", logToJson logs)])
 
+/-! ### synchronous sources and re-entrant calls -/
+open Conn.Sync in
+def notifNat (j : Json) : Except String (Notif Nat) := do
+  match j with
+  | .arr #[.str "N", v] => pure (.next (← v.getNat?))
+  | .arr #[.str "E", .str e] => pure (.error e)
+  | .arr #[.str "C"] => pure .completed
+  | _ => throw s!"bad notification {j.compress}"
+
+def notifNatToJson : Notif Nat → Json
+  | .next v => Json.arr #[.str "N", natJ v]
+  | .error e => Json.arr #[.str "E", .str e]
+  | .completed => Json.arr #[.str "C"]
+
+open Conn.Sync in
+def sopOfJson (j : Json) : Except String SOp := do
+  match j with
+  | .arr #[.str "sub", i, v, r] =>
+    let view ← match v with
+      | .null => pure none
+      | x => do pure (some (← x.getNat?))
+    let react ← match r with
+      | .arr #[a, b] => do pure (some ((← a.getNat?), (← b.getNat?)))
+      | _ => pure none
+    pure (.sub (← i.getNat?) view react)
+  | .arr #[.str "unsub", i] => pure (.unsub (← i.getNat?))
+  | .arr #[.str "connect"] => pure .connect
+  | .arr #[.str "disconnect", k] => pure (.disconnect (← k.getNat?))
+  | .arr #[.str "push", n] => pure (.push (← notifNat n))
+  | _ => throw s!"bad sync op {j.compress}"
+
+open Conn.Sync in
+def syncRun (j : Json) : Except String Json := do
+  let kind ← getStr j "subject"
+  let subj : Subj Nat ← match kind with
+    | "plain" => pure {}
+    | "behavior" => do pure { isBehavior := true, value := some (← getNat j "init") }
+    | _ => throw s!"unknown subject kind {kind}"
+  let sync ← (← getArr j "sync").mapM notifNat
+  let actions ← (← getArr j "actions").mapM sopOfJson
+  let ops ← (← getArr j "ops").mapM sopOfJson
+  let w : SW := { subj := subj, syncMsgs := sync, actions := actions }
+  let r := run w ops 5000
+  let ids := (r.subs.map (·.1))
+  let outs := ids.map fun i => (toString i, Json.arr ((outputsOf r i).map notifNatToJson).toArray)
+  pure (Json.mkObj [("out", Json.mkObj outs), ("nsrc", natJ r.nSrc), ("maxopen", natJ r.maxOpen), ("hasSub", .bool r.hasSub)])
+
 def handle (op : String) (j : Json) : Except String Json := do
   match op with
   | "conn_run" => connRun j
   | "mcast_run" => mcastRun j
+  | "sync_run" => syncRun j
   | _ => throw s!"unknown op {op}"
 
 end DrvConn
